@@ -247,7 +247,10 @@ func CheckC02(state *C02State) func(*Sim, *Step) *Violation {
 		if len(s.ReceiptAt(st.Chain, p.SourceChain, p.DestinationChain, p.Sequence, st.HBefore)) != 0 {
 			return nil
 		}
-		if cleanBefore >= p.Sequence || state.Accepted[k] > 0 {
+		// "cleaned" is decided by the sending chain's own clean point (the only place a clean can originate), not by
+		// what the refusing chain believes
+		srcClean := s.CleanAt(p.SourceChain, p.SourceChain, p.DestinationChain, s.W.Chains[p.SourceChain].Height)
+		if srcClean >= p.Sequence || state.Accepted[k] > 0 {
 			return nil
 		}
 		if st.Chain == p.RelayChain && !s.W.Links[st.Chain][p.DestinationChain] {
@@ -461,6 +464,15 @@ func CheckC09(state *C09State) func(*Sim, *Step) *Violation {
 			return nil
 		}
 		s.Label("ok-send")
+		// a send whose first hop (the relay chain if one is named, else the destination) is a chain this chain holds
+		// no light client for must fail -- judged from the harness's own record of which clients exist
+		firstHop := st.Dst
+		if st.Relay != "" {
+			firstHop = st.Relay
+		}
+		if !s.W.Links[st.Chain][firstHop] {
+			return &Violation{"C09", "send-to-unknown-chain-accepted", fmt.Sprintf("%s holds no client for %q, yet the send was accepted: %s", short(st.Chain), firstHop, st.Describe())}
+		}
 		pkts := world.PacketsFromEvents(st.Res.Events)
 		if len(pkts) != 1 {
 			return &Violation{"C09", "announce-count", fmt.Sprintf("successful send announced %d packets: %s", len(pkts), st.Describe())}
